@@ -267,7 +267,13 @@ func (db *Database) buildTFIDFSearcher() {
 func (db *Database) SearchUniversal(query string, options SearchOptions) []SearchResult {
 	if db.uIndex == nil || db.uIndex.N != len(db.Commands) {
 		// (Re)build lazily if needed
+		stale := db.uIndex != nil
 		db.BuildUniversalIndex()
+		if stale && db.tfidf != nil {
+			// the command list changed under a loaded database: the re-ranker
+			// (built once per load, keyed by command address) must follow it
+			db.buildTFIDFSearcher()
+		}
 	}
 
 	if options.Limit <= 0 {
